@@ -28,13 +28,15 @@ ROWS = [
 for _k, _r in enumerate(ROWS):
     _r["L"] = 4 * 10 ** 18 + 1024 * _k
 
-FEATURES = ["x", "i", "b", "t", "x:i", "i:b", "b:x", "t:x", "x:b", "i:x", "t:x:b", "x:i:b", "t:i:x"]
+FEATURES = ["x", "i", "b", "t", "x:i", "i:b", "b:x", "t:x", "x:b", "i:x", "t:x:b", "x:i:b", "t:i:x", "t:i", "b:i"]
 
 SPEC_SETS = {
     "A": {"x": {"num": 4, "low": -2.0, "high": 2.0}, "i": {"edges": [0, 2, 5]}, "t": {"binWidth": 30 * 86400e9, "origin": 1.5778368e18},
           "x:i": [{"centers": [-1.0, 0.0, 1.0, 2.0]}, {"thresholds": [0, 2]}],
           "i:x": [{"binWidth": 2, "origin": 0.5}, {"num": 2, "low": 0.0, "high": 2.0}],
-          "t:x:b": [{"binWidth": 365 * 86400e9, "origin": 0.0}, {"edges": [0.0, 1.0]}, {}]},
+          "t:x:b": [{"binWidth": 365 * 86400e9, "origin": 0.0}, {"edges": [0.0, 1.0]}, {}],
+          # a sparse / categorical first axis over bins that hold plain Counts (a key that first shows up in a later chunk)
+          "b:i": [{}, {"thresholds": [0, 2]}], "t:i": [{"binWidth": 30 * 86400e9, "origin": 0.0}, {"centers": [0.0, 2.0, 6.0]}]},
     "B": {"b:x": [{}, {"average": True}], "i:x": [{"edges": [0, 2]}, {"sum": True}], "x:i": [{"num": 2, "low": 0.0, "high": 2.0}, {"max": True}],
           "x": {"deviate": True}, "i": {"bag": True}, "t:x": [{"binWidth": 30 * 86400e9, "origin": 0.0}, {"min": True}],
           "x:b": [{"fraction": True}, {}], "i:b": [{"cut": True}, {}], "x:i:b": [{"centers": [0.0, 1.0]}, {"fraction": True}, {}]},
